@@ -385,7 +385,7 @@ package dig
 //@   let k = vkey(ps.Type, ps.Name)
 //@   let S = scopeOf(c)
 //@   loop range stores #1: invariant[C12:loop-exhausted-means-none] !found || d == nil
-//@   loop range stores #1: invariant[C12:decorators-nearest-first] forall i int :: 0 <= i && i < $i ==> !decApplicable(S.anc[i], k)
+//@   loop range stores #1: invariant[C12:decorators-nearest-first,C03:decorators-nearest-first] forall i int :: 0 <= i && i < $i ==> !decApplicable(S.anc[i], k)
 //@   site call (dig.decorator).Call #1: assert[C12:nearest-decorator-in-its-own-scope] exists j int :: 0 <= j && j < S.nanc
 //@        && (forall i int :: 0 <= i && i < j ==> !decApplicable(S.anc[i], k))
 //@        && decApplicable(S.anc[j], k) && $recv == S.anc[j].decorators[k] && isScope($arg0) && scopeOf($arg0) == S.anc[j]
@@ -690,7 +690,7 @@ package dig
 //@   ensures[C03:knot-mono] knotMono()
 //@   onpanic[C03:knot-mono-panic] knotMono()
 //@   ensures[C12:group-decorators-first] ret(callGroupDecorators_1, 0) != nil ==> err == ret(callGroupDecorators_1, 0) && v == nil
-//@   ensures[C12:decorated-group-replaces-members] ret(callGroupDecorators_1, 0) == nil && ret(getDecoratedValues_1, 1) ==> err == nil && v == ret(getDecoratedValues_1, 0)
+//@   ensures[C12:decorated-group-replaces-members,C03:decorated-group-replaces-members] ret(callGroupDecorators_1, 0) == nil && ret(getDecoratedValues_1, 1) ==> err == nil && v == ret(getDecoratedValues_1, 0)
 //@        && sameSince(getDecoratedValues_1, @knot)
 //@   ensures[C11:soft-group-calls-no-feeder] pt.Soft ==> !reached(callGroupProviders_1)
 //@   ensures[C11:soft-undecorated-group-runs-nothing] pt.Soft && (forall j int :: 0 <= j && j < S.nanc ==> old(!(kd in S.anc[j].decorators))) ==> $nrun == old($nrun) && $ncb == old($ncb) && kept(constructorNode.called, decoratorNode.state)
@@ -1001,6 +1001,8 @@ package dig
 //@   ensures[C15:parameter-object-keeps-its-struct-type] err == nil ==> po.Type == t
 //@   ensures[C15:object-fields-index-into-the-struct] err == nil ==> (forall j int :: 0 <= j && j < len(po.Fields) ==> okField(po.Fields[j], t))
 //@   ensures[C06:parsing-an-object-only-appends-graph-nodes] graphsOnlyGrow() && treeInv() && (forall m map[*Scope]int :: existed(m) ==> mapeq(m))
+//@   ensures[C18:object-fields-are-kept-in-declaration-order,C15:object-fields-are-kept-in-declaration-order] err == nil ==> (forall j int, k int :: 0 <= j && j < k && k < len(po.Fields) ==> po.Fields[j].FieldIndex < po.Fields[k].FieldIndex)
+//@   loop for i < t.NumField() #2: invariant[C18:object-fields-so-far-in-declaration-order] (forall j int, k int :: 0 <= j && j < k && k < len(po.Fields) ==> po.Fields[j].FieldIndex < po.Fields[k].FieldIndex) && (forall j int :: 0 <= j && j < len(po.Fields) ==> po.Fields[j].FieldIndex < i)
 //@   loop for i < t.NumField() #2: invariant[C15:object-fields-so-far] 0 <= i && (forall j int :: 0 <= j && j < len(po.Fields) ==> okField(po.Fields[j], t)) && po.Type == t && (cap(po.Fields) == 0 || fresh(po.Fields))
 //@   loop for i < t.NumField() #2: invariant[C06:object-parse-keeps-the-graphs] graphsOnlyGrow() && treeInv() && (forall m map[*Scope]int :: existed(m) ==> mapeq(m))
 //@   loop for i < t.NumField() #1: invariant[C06:object-scan-keeps-the-graphs] graphsOnlyGrow() && treeInv() && (forall m map[*Scope]int :: existed(m) ==> mapeq(m)) && kept(@graphgrow)
@@ -1056,7 +1058,7 @@ package dig
 //@   requires t != nil
 //@   requires forall i int :: 0 <= i && i < len(opts.As) ==> opts.As[i] != nil && kind(typeOf(opts.As[i])) == kPtr() && kind(elem(typeOf(opts.As[i]))) == kInterface()
 //@   allocates plain
-//@   ensures[C09:single-result-keeps-the-declared-name] r.Name == opts.Name
+//@   ensures[C09:single-result-keeps-the-declared-name,C01:single-result-keeps-the-declared-name] r.Name == opts.Name
 //@   ensures[C09:without-as-the-result-is-provided-as-its-own-type] err == nil && len(opts.As) == 0 ==> r.Type == t && len(r.As) == 0
 //@   ensures[C09:a-single-result-has-a-type] err == nil ==> r.Type != nil
 //@   loop range opts.As #1: invariant[C09:as-types-so-far] (cap(asTypes) == 0 || fresh(asTypes)) && (forall j int :: 0 <= j && j < len(asTypes) ==> asTypes[j] != nil) && ($i == 0 ==> len(asTypes) == 0)
@@ -1327,9 +1329,9 @@ package dig
 //@   loop range keys #1: invariant[C06:other-registries-untouched] othersKept && fresh(oldProviders) && treeInv()
 //@   loop range allScopes #2: invariant[C06:registration-still-undoable] registered && othersKept && fresh(oldProviders) && treeInv() && allScopes == all
 //@   loop range allScopes #2: invariant[C06:graphs-untouched-by-the-cycle-check] sameSince(findAndValidateResults_1, graphHolder.nodes, graphHolder.snap, Scope.nodes)
-//@   loop range oldProviders #1: invariant[C06:providers-restored-so-far] (forall k key :: $seen[k] ==> tgt.providers[k] == old(tgt.providers[k]))
+//@   loop range oldProviders #1: invariant[C06:providers-restored-so-far,C10:providers-restored-so-far] (forall k key :: $seen[k] ==> tgt.providers[k] == old(tgt.providers[k]))
 //@        && (forall k key :: !(k in oldProviders) ==> tgt.providers[k] == old(tgt.providers[k])) && (forall k key :: k in oldProviders ==> oldProviders[k] == old(tgt.providers[k]))
-//@   loop range oldProviders #1: invariant[C06:restoring-touches-only-the-target] othersKept && fresh(oldProviders) && treeInv()
+//@   loop range oldProviders #1: invariant[C06:restoring-touches-only-the-target,C10:restoring-touches-only-the-target] othersKept && fresh(oldProviders) && treeInv()
 
 // ---------------------------------------------------------------------------
 // registration: Decorate (C06, C12, C14)
